@@ -188,7 +188,8 @@ def handleAwsOp (prev : Option PGroup) (j : Json) : OpOut × Option PGroup :=
       let mOut := incErrStr r.val.err
       -- monitors on the observed journal
       let oErr := incErrOfOutcome oOut (oJ.isEmpty)
-      let m17 := if Spec.C17.increaseHolds cfg g delta oJ oErr then [] else ["C17:request"]
+      let m17 := if Spec.C17.increaseHolds cfg g delta oJ oErr then [] else
+        (["C17:request"] ++ (if seq > 0 then ["C07:not-on-top-of-current-desired"] else []))
       let m1718 := match acquiredOf oJ resps with
         | some acq =>
           (if Spec.C17.attachHolds g.id acq oJ then [] else ["C17:attach-partition"]) ++
